@@ -52,7 +52,9 @@ DOC = {
     "RootSetAtomic": "after a CA command the root set is the old one or exactly the requested one; commands that name no roots leave them alone",
     "RootSetAtomic/config-without-roots": "the composite SetRootsAndConfig never stores its configuration without its roots",
     "RootSetAtomic/roots-without-config": "the composite SetRootsAndConfig never stores its roots without its configuration",
-    "rotate-state": "a successful rotation keeps every old root (inactive) and adds exactly one new, active root",
+    "rotate-state": "a successful rotation to a fresh root keeps every old root (inactive) and adds exactly one new, active root; a "
+                    "successful rotation to an operator-supplied root (same PrivateKey + RootCert, possibly a FORMER root still in the set: "
+                    "rolling a rotation back) leaves the old ids plus the target, the target active and everything else inactive",
     "sign-keeps-roots": "signing never changes roots or configuration",
     "signer-is-active": "after sign / rotate / reconfig the root the CAManager signs with (its provider root) is the store's active root",
     "failed-rotate-keeps-roots": "a (re)configuration that reports an error - e.g. because a RacingRootWrite made its conditional write "
@@ -70,7 +72,10 @@ ASSUMPTIONS = [
     "primary datacenter, built-in consul provider, CE build (no partitions/namespaces), rate limiting disabled",
     "named deviation AgentCSRTrustDomainRewritten: agent CSRs from any trust domain are accepted and must be rewritten to the cluster's",
     "server identities with acl:write and agent identities with a non-default partition: statement silent, either outcome accepted",
-    "root sets in a request are keyed by id (a request listing the same root id twice is outside the model)",
+    "a CA request lists roots; the root SET it asks for is keyed by id, and when an id is listed twice (stale inactive copy + new "
+    "active entry, as the leader does when rolling a rotation back) the request asks for that root to be active (CATrace RootSetOf)",
+    "operator-supplied roots are self-signed CA certificates made by the harness like ConsulProvider.generateCA makes its own "
+    "(serials 1..3, below the CA's own counter)",
     "RacingRootWrite fault: a CAOpSetRoots re-writing the current roots at the current index is committed (through the delegate's "
     "BeforeApply hook) just before the manager's own CAOpSetRootsAndConfig / CAOpSetRoots gets its index, like Server.pruneCARoots could",
     "agent CSRs whose URI authority is [host], host. or an IPv6 literal may be rejected by crypto/x509 at CSR parse: either outcome accepted",
@@ -138,7 +143,9 @@ def nontrivial_key(e):
         rs = c.get("roots", [])
         return (c["t"], c.get("cas", -1) == pre["ridx"], c.get("ccas", -1) == pre["cfg"]["mi"], c.get("ccas", -1) == 0,
                 sum(1 for x in rs if x["active"]), len(rs), r.get("ok"), "via" in c)
-    return (c["t"], r["t"], r.get("raced"), c.get("via"))
+    tgt = r.get("target", "")
+    rel = "" if not tgt else ("active" if tgt == e["pre"]["active"] else "former" if any(x["id"] == tgt for x in e["pre"]["roots"]) else "new")
+    return (c["t"], r["t"], r.get("raced"), c.get("via"), rel)
 
 
 def judge(tp, rows, verdict, stats):
@@ -153,6 +160,9 @@ def judge(tp, rows, verdict, stats):
                 stats["raced_rotations"] += 1
             elif res["t"] == "ok":
                 stats["rotations"] += 1
+                tgt = res.get("target", "")
+                if tgt and tgt != e["pre"]["active"] and any(x["id"] == tgt for x in e["pre"]["roots"]):
+                    stats["rollback_rotations"] += 1   # back to a FORMER root that is still in the set
         elif c["t"] in ("set-roots", "set-roots-and-config"):
             if "via" in c:
                 stats["manager_root_ops"] += 1
@@ -185,7 +195,7 @@ def run(tier):
     d = DEPTH[tier]
     cov = {"mc": [], "gen": [], "random": []}
     stats = {"nontrivial": set(), "issued": 0, "refused": 0, "rotations": 0, "stale_root_cas": 0, "applied_root_sets": 0,
-             "manager_root_ops": 0, "raced_rotations": 0, "hits": {}, "info": {}}
+             "manager_root_ops": 0, "raced_rotations": 0, "rollback_rotations": 0, "hits": {}, "info": {}}
     states = transitions = n_beh = 0
     samples = []
     try:
@@ -239,7 +249,8 @@ def run(tier):
                 samples.append({"source": e["src"], "cmd": e["cmd"], "impl_result": e["res"]})
         n_new = verdict.finish()
         # vacuity: the antecedents of the judgements must have been exercised on the real code (a violation is reported first)
-        for k in ("issued", "refused", "rotations", "raced_rotations", "stale_root_cas", "applied_root_sets", "manager_root_ops"):
+        for k in ("issued", "refused", "rotations", "raced_rotations", "rollback_rotations", "stale_root_cas", "applied_root_sets",
+                  "manager_root_ops"):
             if stats[k] == 0 and not n_new:
                 raise vf.Infra("vacuous run: no %s case was executed against the real code" % k)
         coverage = {
@@ -252,8 +263,8 @@ def run(tier):
                     "distinct (CSR shape classes x SAN kinds x granted scope kinds x outcome) and (CA command x CAS relation x root-set "
                     "validity x outcome) tuples actually executed",
             "model_check": cov["mc"], "generation": cov["gen"], "random": cov["random"],
-            "impl_counts": {k: stats[k] for k in ("issued", "refused", "rotations", "raced_rotations", "stale_root_cas", "applied_root_sets",
-                                                   "manager_root_ops")},
+            "impl_counts": {k: stats[k] for k in ("issued", "refused", "rotations", "raced_rotations", "rollback_rotations", "stale_root_cas",
+                                                   "applied_root_sets", "manager_root_ops")},
             "predicates": sorted(PREDS), "predicate_doc": DOC,
             "rejected_steps_by_predicate": stats["hits"],
             "conformance_outside_C12_view": {"predicates": sorted(INFO_PREDS), "rejected_steps": stats["info"],
